@@ -344,8 +344,18 @@ func pedersenCase[E algebra.PrimeGroupElement[E, S], S algebra.PrimeFieldElement
 	if trap {
 		std = pedKeySpec{bi(1), bi(0), lambda, bi(0)}
 	}
+	type keyRes struct {
+		k   *pedersencom.CommitmentKey[E, S]
+		err error
+	}
+	keyCache := map[string]keyRes{}
 	mkKey := func(ks pedKeySpec) (*pedersencom.CommitmentKey[E, S], error) {
-		return pedersencom.NewCommitmentKeyUnchecked(cx.lin(ks.g0, ks.g1, G, H), cx.lin(ks.h0, ks.h1, G, H))
+		if kr, ok := keyCache[ks.text()]; ok {
+			return kr.k, kr.err
+		}
+		k, err := pedersencom.NewCommitmentKeyUnchecked(cx.lin(ks.g0, ks.g1, G, H), cx.lin(ks.h0, ks.h1, G, H))
+		keyCache[ks.text()] = keyRes{k, err}
+		return k, err
 	}
 	for t := 0; t < c.tamperPerProgram && len(regs) > 0; t++ {
 		k := len(regs) - 1
@@ -390,7 +400,16 @@ func pedersenCase[E algebra.PrimeGroupElement[E, S], S algebra.PrimeFieldElement
 		for vi, v := range vs {
 			vid := fmt.Sprintf("%s.t%d.%d", id, t, vi)
 			// commitment'
-			cv := g.c.Value().ScalarOp(cx.sc(v.scale)).Op(cx.lin(v.dc0, v.dc1, G, H))
+			cv := g.c.Value()
+			if v.scale.Cmp(one) != 0 {
+				cv = cv.ScalarOp(cx.sc(v.scale))
+			}
+			if v.dc0.Sign() != 0 {
+				cv = cv.Op(G)
+			}
+			if v.dc1.Sign() != 0 {
+				cv = cv.Op(H)
+			}
 			changedCom := !cv.Equal(g.c.Value())
 			if strings.HasPrefix(v.name, "com") && !changedCom {
 				continue // e.g. −c = c for the identity
